@@ -65,6 +65,11 @@ func ip2int(ip net.IP) uint32 {
 		return binary.BigEndian.Uint32(ip[12:16])
 	}
 
+	if len(ip) != 4 {
+		// absent IPv4 address (e.g. an IPv6-only IE)
+		return 0
+	}
+
 	return binary.BigEndian.Uint32(ip)
 }
 
